@@ -56,7 +56,15 @@ def handle : Handler
   | "alias_set", args => run3 (fun w u _ => mpz_set w u) args
   | "alias_sqrtrem", [.num a, .num b, .num c, .num _, .num v0, .num v1, .num v2, .num v3] => do
     let a ← idx a; let b ← idx b; let c ← idx c
-    if a = b then none else answer (sqrtrem a b c (ofInts [v0, v1, v2, v3]))
+    if a = b then none else
+    let s0 := ofInts [v0, v1, v2, v3]
+    match sqrtrem a b c s0 with
+    | .error e => some [.err e]
+    | .ok s =>
+      -- the root block is replaced by free + allocate: "moved" is reported as "ALLOC changed" for root
+      some ((List.range 4).flatMap fun i =>
+        [.num (s.value i), .num (s.alloc i),
+         .num (if i = a then (if s.alloc i = s0.alloc i then 0 else 1) else (if s.ptr i = i then 0 else 1))])
   | "alias_mul_2exp", args => runB mul_2exp args
   | "alias_tdiv_q_2exp", args => runB tdiv_q_2exp args
   | _, _ => none
